@@ -1,6 +1,6 @@
 # table consumed by tools_manifest.py
 ENGINES = [
-    {"name": "vv", "path": "vv/", "serves_properties": ["C05", "C09", "C13", "C17", "C18", "C19"], "kind_free_text": "runtime monitors: generators, independent flatbuffer reader/writer, compile drivers, sharded worker harness, evidence/findings"},
+    {"name": "vv", "path": "vv/", "serves_properties": ["C05", "C07", "C09", "C13", "C17", "C18", "C19"], "kind_free_text": "runtime monitors: generators, independent flatbuffer reader/writer, compile drivers, sharded worker harness, evidence/findings"},
 ]
 NOTES = ("Technique family: runtime monitoring and sanitizers. Every check runs the real code from /repo's working tree (codec rebuilt from the C "
          "sources on every run) under generated workloads with oracles observing executions; verdicts are violated / held-on-what-was-observed / "
@@ -55,3 +55,12 @@ check("C18", "exploration",
       "from three working directories with Dir/file.ini, absolute and generated configuration files.",
       "The resolver is my reading of OPTIONS.md; invalid configurations must raise a VelaError subclass (direct) or exit non-zero without traceback (CLI).",
       "reference-model runtime monitor on ArchitectureFeatures and CLI output", "DESIGN.md 4/C18")
+
+check("C07", "exploration",
+      "Round-trip monitor with sanitizers: every stream produced by ethosu.mlw_codec.encode / reorder_encode / api.npu_encode_weights (codec rebuilt from the working "
+      "tree) is decoded by a frozen Python port of the stream format and compared with the source weights in the hardware traversal order computed by an independent "
+      "reorder model (only zero padding allowed, length multiple of 16); exhaustive short sequences, 9 random distributions up to 70000 weights, random volumes x "
+      "accelerator/bit-depth/block-depth/depthwise/traversal/dilation/kernel/NumPy-layout; coding-mode coverage is measured by the decoder and thresholded; the same "
+      "vectors run through clang ASan+UBSan builds (with and without -DNDEBUG) of mlw_encode.c+mlw_decode.c; out-of-range probes must be rejected or round-trip.",
+      "Sanitizers only see the vectors driven (red-zone detection); the reference decoder is cross-checked against the repository's C decoder each run.",
+      "ASan/UBSan instrumented builds + round-trip reference-decoder monitor", "DESIGN.md 4/C07")
